@@ -184,6 +184,8 @@ impl StateMachine<'_> {
             self.config,
         )?;
         self.painter.merge_conflict_lines.clear();
+        // The names belong to this region; the next one may not have an ancestor section.
+        self.painter.merge_conflict_commit_names = MergeConflictCommitNames::new();
         self.state = HunkZero(Combined(merge_parents.clone(), InMergeConflict::No), None);
         Ok(())
     }
